@@ -409,3 +409,66 @@ def worker_new(target, init, final, name):
     w = ThreadCommon(target, init, final, name)
     return [w._stop_flag, w._thrd, w._name, w._init, w._target, w._final]
 # ---- END pl15 -------------------------------------------------------------------------------------------
+# ---------------------------------------------------------------- pl14: receive thread / stream path (begin)
+def recv_run(comm, calls):
+    """call comm._recv_thread() `calls` times (the body of the receive thread: one reassembly step and the
+    routing of its frame); what is on the two queues afterwards, what is left buffered / unread"""
+    for _ in range(calls):
+        comm._recv_thread()
+    return [comm._q.items, comm._q_stream.items, comm._prev_read, comm._intf.chunks]
+
+
+def stream_data_run(comm, calls):
+    """call comm.stream_data() `calls` times over a scripted stream queue; the results (an assertion
+    failure is recorded and the history goes on) and what is left on the queue"""
+    out = []
+    for _ in range(calls):
+        try:
+            out.append(comm.stream_data())
+        except AssertionError:
+            out.append("AssertionError")
+        except struct.error:
+            out.append("struct.error")
+    return [out, comm._q_stream.items]
+
+
+class SubQueue:
+    """Stand-in for the queue.Queue a subscriber holds.  The interpreter's values have no identity: `serial`
+    (given by the harness) names the queue; put() appends to the queue's own list."""
+
+    def __init__(self, serial):
+        self.serial = serial
+        self.items = []
+
+    def put(self, x):
+        self.items = self.items + [x]
+
+
+def sub_view(nx):
+    """every subscriber queue, by channel, as [serial, items]; the overflow counter; what is left on the
+    stream-frame queue"""
+    rows = []
+    for sub in nx._sub_q:
+        row = []
+        for q in sub:
+            row.append([q.serial, q.items])
+        rows.append(row)
+    return copy.deepcopy([rows, nx._ovf_cntr, nx._comm._q_stream.items])
+
+
+def stream_thread_run(nx, calls):
+    """call nx._stream_thread() `calls` times (the body of the stream thread: next stream frame -> decoded
+    samples -> subscriber queues); the exceptions it can raise are recorded and the history goes on"""
+    views = []
+    for _ in range(calls):
+        try:
+            nx._stream_thread()
+        except AssertionError:
+            views.append("AssertionError")
+        except struct.error:
+            views.append("struct.error")
+        except IndexError:
+            views.append("IndexError")
+        views.append(sub_view(nx))
+    return views
+# ---------------------------------------------------------------- pl14 (end)
